@@ -443,6 +443,9 @@ add("C14", "fixed", "path:raises-LiquidSyntaxError", "a dotted property that spe
     "spelling of the same key worked",
     [{"kind": "path", "segs": ["d", "limit"], "data": V.enc({"d": {"limit": "V-limit"}}), "flags": {}, "async": False}], "195c53b")
 
+add("C26", "fixed", "tag:raises-TranslationValueError:placeholder", "a message variable whose name ends in a question mark ({{ ok? }} in the tag, %(ok?)s in a filter message) was not found by the placeholder pattern: TranslationValueError",
+    [{"kind": "tag", "msg": "{{ ok? }}", "body": "{{ ok? }}", "async": False, "vars": {"ok?": "yes"}}], "f5edd61")
+
 if __name__ == "__main__":
     # further entries are appended by tools/mkfindings.py from triaged replay files and kept in findings_extra.json
     extra_path = os.path.join(VERIF, "tools", "findings_extra.json")
